@@ -107,7 +107,8 @@ def check_case(ctx, case):
                 src = src[src["val"] >= med]
             if case.get("cx_filter") and len(src):
                 tb0 = list(total_ref(kind, gg.pylist(src[act].array)))
-                if tb0[0] == tb0[0]:
+                # (only boxes of positive width and height: nothing is promised about a degenerate selection box)
+                if tb0[0] == tb0[0] and tb0[2] > tb0[0] and tb0[3] > tb0[1]:
                     ddf.partition_sindex
                     ddf.geometry.partition_bounds
                     fx, fy = case["cx_filter"]
